@@ -76,6 +76,7 @@ type tcase struct {
 	pins     []*api.Pin
 	mode     string // alert | remove | expiry
 	remover  int
+	viaJSON  bool // the peers' configuration went through ToJSON / LoadJSON / ApplyEnvVars, as the daemon's does
 }
 
 var optNorm = cmpx.Norm{DropUserAllocs: true, ExpirySeconds: true, ModeFromDepth: true, DropAllocs: true}
@@ -83,7 +84,7 @@ var fullNorm = cmpx.Norm{DropUserAllocs: true, ExpirySeconds: true, ModeFromDept
 
 func (c *tcase) String() string {
 	var sb strings.Builder
-	fmt.Fprintf(&sb, "mode=%s members=%d failed=P%d remover=%d healthy=", c.mode, c.n, pidx(c.failed), c.remover)
+	fmt.Fprintf(&sb, "mode=%s members=%d failed=P%d remover=%d viaJSON=%v healthy=", c.mode, c.n, pidx(c.failed), c.remover, c.viaJSON)
 	var h []peer.ID
 	for p, ok := range c.healthy {
 		if ok {
@@ -105,6 +106,7 @@ func drawCase(t *rapid.T) *tcase {
 	members := gen.Peers[:c.n]
 	c.failed = members[rapid.IntRange(0, c.n-1).Draw(t, "failed")]
 	c.remover = rapid.IntRange(0, c.n-1).Draw(t, "remover")
+	c.viaJSON = rapid.Bool().Draw(t, "configViaJSON")
 	uniform := rapid.IntRange(0, 2).Draw(t, "uniform") != 0
 	for i := 0; i < c.n; i++ {
 		d, f := false, false
@@ -209,7 +211,7 @@ func hasAlert(f *fakes.ClusterFixture, name string) bool {
 	return false
 }
 
-const rule = "case = members (1-8 real Cluster instances sharing one pinset and peerset) x failing/removed peer x per-survivor metric validity x per-instance re-pinning disabled / follower (2/3 of cases uniform: all enabled) x pinset of 1-6 pins (allocations over members and ex-members, factors, all options, shard-type entries, pins recording an update source) x mode: ping alert delivered to every survivor from the same initial state, PeerRemove at one member, or StateSync expiry sweep at every member; non-trivial = the failed peer holds a pin that falls below its minimum and there are >= 2 survivors (expiry: an expired pin and >= 2 members); distinct by canonical rendering"
+const rule = "case = members (1-8 real Cluster instances sharing one pinset and peerset) x failing/removed peer x per-survivor metric validity x configuration built in Go or passed through ToJSON / LoadJSON / ApplyEnvVars as the daemon does x per-instance re-pinning disabled / follower (2/3 of cases uniform: all enabled) x pinset of 1-6 pins (allocations over members and ex-members, factors, all options, shard-type entries, pins recording an update source) x mode: ping alert delivered to every survivor from the same initial state, PeerRemove at one member, or StateSync expiry sweep at every member; non-trivial = the failed peer holds a pin that falls below its minimum and there are >= 2 survivors (expiry: an expired pin and >= 2 members); distinct by canonical rendering"
 
 func TestRehome(t *testing.T) {
 	leg := ev.L("rehome", rule)
@@ -225,7 +227,7 @@ func TestRehome(t *testing.T) {
 		var insts []*inst
 		for i := 0; i < c.n; i++ {
 			i := i
-			f := fakes.NewCluster(fakes.ClusterOpts{Key: gen.PeerKeys[i], Shared: shared, Mutate: func(cfg *ipfscluster.Config) {
+			f := fakes.NewCluster(fakes.ClusterOpts{Key: gen.PeerKeys[i], Shared: shared, ThroughJSON: c.viaJSON, Mutate: func(cfg *ipfscluster.Config) {
 				cfg.DisableRepinning = c.disabled[i]
 				cfg.FollowerMode = c.follower[i]
 				cfg.ReplicationFactorMin, cfg.ReplicationFactorMax = -1, -1
